@@ -308,7 +308,9 @@ class SSPOC(BaseEstimator):
                 "SSPOC model has no selected sensors so predictions are random. "
                 "Increase n_sensors or lower threshold with SSPOC.update_sensors."
             )
-            return self.dummy_.predict(x[:, 0])
+            # Only the number of samples matters to the dummy classifier; with no
+            # selected sensors x may well have zero columns.
+            return self.dummy_.predict(np.zeros(len(x)))
         if self.refit_:
             return self.classifier.predict(x)
         else:
